@@ -344,6 +344,15 @@ fn cut_impl(ctx: &mut Ctx, connecting: bool) {
     let pos = position_name(kind, off);
     let tag = format!("{} with {} bystander(s); victim{} cut {} (offset {off} of {len}) by {:?}", kind.name(), nby, if connecting { " (connected to by the socket)" } else { "" }, pos, fault);
     let o = out.borrow();
+    if std::env::var_os("ZSIM_DEBUG").is_some() {
+        if let Some(v) = &o.victim_conn {
+            for d in 0..2 {
+                let dir = v.dir(d);
+                eprintln!("[c16] dir {d}: tap {} consumed {} reset {} w_closed {} r_closed {} reader_parked {} err_delivered {:?} eof {:?} read_calls {} write_calls {}", dir.tap.len(), dir.consumed, dir.reset, dir.w_closed, dir.r_closed, dir.reader_parked(), dir.err_delivered, dir.eof_delivered, dir.read_calls, dir.write_calls);
+            }
+            eprintln!("[c16] errors_total {} victim_got {} lib_side {} sends_after {} send_errors_after {}", o.errors_total, o.victim_got, o.lib_side, o.sends_after, o.send_errors_after);
+        }
+    }
     if end == rt::RunEnd::Budget {
         ctx.violation(&format!("no_quiescence:{}:{:?}", kind.name(), fault), format!("{tag}: the socket spins (no quiescence within the step budget)"));
     }
@@ -382,7 +391,9 @@ fn cut_impl(ctx: &mut Ctx, connecting: bool) {
         }
         // released
         if let Some(v) = &o.victim_conn {
-            if fired && !v.released(o.lib_side) {
+            // 'released' is owed only if the fault had fired by the observation point: the socket
+            // is polled (recv drained, sends attempted) after that point, not after a later firing
+            if fired && o.fired_at_observation && !v.released(o.lib_side) {
                 let st = v.side_state(o.lib_side);
                 ctx.violation(&format!("not_released:{}:{:?}", kind.name(), fault), format!("{tag}: at quiescence the socket still holds the victim's connection (read half dropped: {}, write half dropped: {})", st.read_half_dropped.is_some(), st.write_half_dropped.is_some()));
             }
